@@ -44,6 +44,21 @@ class VirtualClock:
     def advance(self, dt):
         self.t += dt
 
+    # usable where the library holds the MODULE (`import time; time.time()`) as well as where it
+    # holds the function (`from time import time`)
+    def time(self):
+        return self()
+
+    monotonic = perf_counter = time
+
+    def installed(self, *modules):
+        """patch `time` in the given library modules AND time.time / monotonic / perf_counter of the
+        time module itself, so the clock is owned however the library spells the call"""
+        import time as _t
+        triples = [(m, "time", self) for m in modules if hasattr(m, "time")]
+        triples += [(_t, "time", self), (_t, "monotonic", self), (_t, "perf_counter", self)]
+        return patched(*triples)
+
 
 class ScriptedUniform:
     """replacement for numpy.random.random_sample / rand: answers come from
